@@ -89,7 +89,12 @@ def _gen_values(rng, dt, fam):
         a[int(rng.integers(n))] = base + int(rng.integers(2, 60)) * (1 if dtype.kind == "u" or rng.random() < 0.5 else -1)
         if dtype.kind == "u":
             a = np.abs(a)
-        return a.astype(dtype).reshape(shape)
+        a = a.astype(dtype)
+        if dtype.kind == "f" and rng.random() < 0.5:
+            # coinciding limits *and* invalid pixels: the degenerate branch must still mask NaN
+            free = np.flatnonzero(a == dtype.type(base))
+            a[rng.choice(free, size=int(rng.integers(1, 4)), replace=False)] = np.nan
+        return a.reshape(shape)
     if dtype.kind == "b":
         a = rng.integers(0, 2, size=n).astype(bool)
         a[:2] = [False, True]
@@ -313,6 +318,26 @@ def _run_norm(spec, idx, ctx):
                 grid = np.unique(g.astype(use.dtype))
             grid = grid[np.isfinite(grid)]
         _judge(ctx, spec, grid, norm, norm(grid), "probe-grid")
+    if mode == "direct":
+        # history: a normalisation built without data= derives its limits from each array it is called with; reusing the object on an
+        # array with another range (as list_of_arrays_to_rgba does for every image of a list) must give what a fresh object gives
+        other = _gen_values(rng, spec["dtype"], FAMILIES[int(rng.integers(len(FAMILIES)))])
+        if other.dtype == bool:
+            other = np.array(other, dtype="float")
+        if other.dtype.kind == "f":
+            other = other * other.dtype.type(rng.choice([0.01, 1.0, 37.0])) + other.dtype.type(rng.choice([0.0, 5.0, -100.0]))
+        elif other.dtype.itemsize >= 2:
+            other = (other // 3 + other.dtype.type(7)).astype(other.dtype)
+        fin_o = other[np.isfinite(other)] if other.dtype.kind == "f" else other.ravel()
+        if len(np.unique(fin_o)) < 2 or (other.dtype.kind == "f" and float(np.abs(fin_o.astype(np.float64)).max()) > 0.01 * float(np.finfo(other.dtype).max) and other.dtype != np.float16):
+            ctx.count("reuse_second_array_outside_domain")
+            other = None
+    if mode == "direct" and other is not None:
+        reused = norm(other)
+        fresh = cn.CustomNormalization(**kw)(other)
+        same = np.array_equal(np.ma.getmaskarray(reused), np.ma.getmaskarray(fresh)) and np.allclose(np.ma.getdata(reused)[~np.ma.getmaskarray(reused)].astype(np.float64), np.ma.getdata(fresh)[~np.ma.getmaskarray(fresh)].astype(np.float64), rtol=0, atol=1e-12, equal_nan=True)
+        ctx.check(same, "reused_object_differs_from_fresh", lambda: "second array through the same CustomNormalization object differs from a fresh object with the same configuration: %r vs %r" % (np.ma.getdata(reused).ravel()[:5].tolist(), np.ma.getdata(fresh).ravel()[:5].tolist()), dtype=str(other.dtype), interval=spec["interval"], stretch=spec["stretch"], mode=mode)
+        _judge(ctx, spec, other, norm, reused, "second array through the same object")
     nd = len(np.unique(use[np.isfinite(use)])) if use.dtype.kind == "f" else len(np.unique(use))
     hostile = (use.dtype.kind == "f" and not np.isfinite(use).all()) or kw.get("stretch_type", "linear") != "linear" or kw.get("power", 1.0) != 1.0
     ctx.nontrivial(("norm", spec["dtype"], spec["interval"], spec["stretch"], mode, spec["family"]), nd >= 3 and hostile)
